@@ -114,8 +114,9 @@ claim("C10", "DESIGN.md 5/C10 and 9", "Lean theorems: characters -> tokens -> pr
       "(blanks, tabs, LF or CR LF, comments) whose tokens render a program (commands, named arguments, numbers, quoted and bare-identifier strings, lists nested to any depth, trailing commas or not) "
       "parses to exactly that program with every node on the line it starts on; built from lexS_gap / spells_* (character level, Lemmas/Lex, incl. lexAll_fuel: the lexer's recursion bound never loses a token) and "
       "program_renders (token level, mutual induction over values; it exposed and fixed an inadequate recursion budget of the model). NOT covered by the theorem, and decided by the correspondence and the "
-      "round-trip oracle on the implementation only: unquoted strings that are no identifiers - as values, tuple keys or tuple values (tuples with quoted or identifier keys and quoted, identifier, integer or decimal values are covered) -, user-written escape sequences inside quoted strings, EEMS 2.0 command form, and the "
-      "rejection of malformed text (partial as proof for those). The executable model is compared with Parser().parse on every run over renderings of random abstract programs under random layouts, their "
+      "round-trip oracle on the implementation only: unquoted strings holding digits or several words (multi-token values), unquoted tuple keys that are no identifiers (tuples with quoted or identifier keys and quoted, identifier, integer or decimal values are covered), EEMS 2.0 command form, and the "
+      "rejection of malformed text other than bad escapes (partial as proof for those). Covered since round 6: unquoted text that is no identifier and holds no digit - one PLAIN_STRING token (%abc, /p/q.txt, non-ASCII words) or an identifier run followed at once by one (x.y, a-b) - is read back as exactly that text when a delimiter follows (RVal.plain / RVal.idPlain in expression_renders, spells_plain, scanOne_plain); "
+      "any quoted string with user-written escapes is one STRING token holding what the decoder stringValue yields, and escapes the decoder refuses are a syntax error (QBody, quoted_any, spells_quoted_any, quoted_bad_escape; that stringValue is Python's unicode_escape on Latin-1/backslashreplace text is tied by correspondence). The executable model is compared with Parser().parse on every run over renderings of random abstract programs under random layouts, their "
       "single-character mutations and token soups (whole tree with line numbers, or error class). Every accepted text is also loaded with the real Program.from_source (a library that serves every command name): "
       "result names, command names, lines, argument names, values with their kinds, nesting and tuples handed to the commands must be those of the parse, whatever was loaded earlier in the process (texts differing "
       "only in blanks inside strings or in a line break after a comment are loaded one after the other). Known finding F10 (unquoted multi-token strings) is re-run and listed.",
